@@ -17,6 +17,13 @@ pub type SystemTime = NativeSystemTime;
 /// Mirror function that mimics DateTime<Utc>::now() with the exception that it
 /// uses the potentially mocked system time.
 pub fn utc_now() -> DateTime<Utc> {
+    #[cfg(lancedb_lance_verif)]
+    {
+        let forced = VERIF_CLOCK_NANOS.load(std::sync::atomic::Ordering::SeqCst);
+        if forced != 0 {
+            return DateTime::from_timestamp_nanos(forced);
+        }
+    }
     let now = SystemTime::now()
         .duration_since(UNIX_EPOCH)
         .expect("system time before Unix epoch");
@@ -27,9 +34,27 @@ pub fn utc_now() -> DateTime<Utc> {
 }
 
 pub fn timestamp_to_nanos(timestamp: Option<SystemTime>) -> u128 {
+    #[cfg(lancedb_lance_verif)]
+    {
+        let forced = VERIF_CLOCK_NANOS.load(std::sync::atomic::Ordering::SeqCst);
+        if forced > 0 && timestamp.is_none() {
+            return forced as u128;
+        }
+    }
     let timestamp = timestamp.unwrap_or_else(SystemTime::now);
     timestamp
         .duration_since(SystemTime::UNIX_EPOCH)
         .unwrap()
         .as_nanos()
+}
+
+/// Verification hook: when non-zero, the current time reported by `utc_now` and
+/// `timestamp_to_nanos(None)` (unix nanoseconds) instead of the system clock.
+#[cfg(lancedb_lance_verif)]
+pub static VERIF_CLOCK_NANOS: std::sync::atomic::AtomicI64 = std::sync::atomic::AtomicI64::new(0);
+
+/// Verification hook: force the clock read by this crate to `unix_nanos` (0 = system clock).
+#[cfg(lancedb_lance_verif)]
+pub fn verif_set_clock(unix_nanos: i64) {
+    VERIF_CLOCK_NANOS.store(unix_nanos, std::sync::atomic::Ordering::SeqCst);
 }
